@@ -180,6 +180,41 @@ where
         self.early_parse = enabled;
     }
 
+    /// Projection of the loader state for the verification harness (JSON).
+    #[cfg(feature = "verif-hooks")]
+    #[must_use]
+    pub fn verif_state(&self) -> String {
+        let kind = |n: &Node| {
+            if n.is_sequence() {
+                "S"
+            } else if n.is_mapping() {
+                "M"
+            } else if n.is_badvalue() {
+                "B"
+            } else {
+                "V"
+            }
+        };
+        let ds: Vec<String> = self
+            .doc_stack
+            .iter()
+            .map(|(n, a)| format!("[\"{}\",{}]", kind(n), a))
+            .collect();
+        let ks: Vec<String> = self
+            .key_stack
+            .iter()
+            .map(|n| format!("\"{}\"", kind(n)))
+            .collect();
+        let am: Vec<String> = self.anchor_map.keys().map(ToString::to_string).collect();
+        format!(
+            "{{\"docs\":{},\"doc_stack\":[{}],\"key_stack\":[{}],\"anchors\":[{}]}}",
+            self.docs.len(),
+            ds.join(","),
+            ks.join(","),
+            am.join(",")
+        )
+    }
+
     /// Return the document nodes from `self`, consuming it in the process.
     #[must_use]
     pub fn into_documents(self) -> Vec<Node> {
